@@ -20,6 +20,7 @@ Views(ev) == ev.vb.bytes = buf' /\ ev.vb.len = Len(buf') /\ ev.vt.rem = Len(buf'
 
 EvOK(ev) ==
   CASE ev.k = "dt"  -> ev.rem = GenericRemaining(ev.readable)
+    [] ev.k = "dtlive" -> GenericRemainingLive(ev.answers, ev.rem)
     [] ev.k = "dtlife" -> ev.isopen /\ ev.allnil /\ ev.remsame
     [] ev.k = "reg" -> /\ ev.ret = RegistryResult(ev.registered, ev.cbret)
                        /\ ev.registered => ev.argok
